@@ -216,9 +216,16 @@ func (ci *index) find(id string) (c *Persistent, ok bool) {
 	// Try MAC first, like [Persistent.setID] does: an EUI-64 in the
 	// colon-separated form is also a syntactically valid IPv6 address, but such
 	// an identifier is always stored as a MAC.
+	//
+	// Since the text of an IPv6 address, each group of which has exactly two
+	// hexadecimal digits, is also a syntactically valid EUI-64, go on when
+	// there is no client with such a MAC.
 	mac, err := net.ParseMAC(id)
 	if err == nil {
-		return ci.findByMAC(mac)
+		c, ok = ci.findByMAC(mac)
+		if ok {
+			return c, true
+		}
 	}
 
 	ip, err := netip.ParseAddr(id)
